@@ -322,6 +322,10 @@ var c02Structural = []string{
 	"func g:nu\n    return 1\nend\nz := (g) + 1\nprint z (g)[0]\n",
 	"for i := range \n    print i+1 i[0]\nend\nfor j := range 1 2 3 4\n    print j+\"s\"\nend\n",
 	"a := [1 2\nprint a[0] a+a\nm := {k:\nprint m.k\n",
+	// nested literals whose inner literals have different element types: every element is usable as the any its static type says
+	"a := [[\"x\" \"y\"] [10 20]]\nprint (typeof a) (typeof a[0]) (typeof a[0][0]) (typeof a[1][1]) (a[0][0] == a[1][0]) (len a[0])\nprint a[1][0].(num) a[0][1].(string)\nfor r := range a\n    for e := range r\n        print e (typeof e)\n    end\nend\nprintf \"%v %v\\n\" a[0][0] a[1][1]\ntest a[0][0] \"x\"\n",
+	"a := [{a:1} {a:\"s\"}]\nprint (typeof a) (typeof a[0]) (typeof a[0].a) (a[0].a == a[1].a)\nprint a[0].a.(num) a[1].a.(string)\nfor m := range a\n    for k := range m\n        print k m[k] (typeof m[k])\n    end\nend\n",
+	"a := {p:[1] q:[true]}\nprint (typeof a) (typeof a.p[0]) (a.p[0] == a.q[0])\nb := [[[1]] [[\"a\"]]]\nprint (typeof b) (typeof b[0][0][0]) b[1][0][0].(string)\n",
 	// equality between any values of the same kind but other element types
 	"x:any\ny:any\nx = [1 2]\ny = [\"1\" \"2\"]\nprint (x == y) (x != y)\nx = {k:1}\ny = {k:\"1\"}\nprint (x == y)\nx = [[1]]\ny = [[true]]\nprint (x == y)\n",
 	"xs:[]any\nxs = [[1 2] [\"1\" \"2\"] {k:1} {k:\"1\"} [] {}]\nfor a := range xs\n    for b := range xs\n        print (a == b)\n    end\nend\n",
